@@ -41,14 +41,14 @@ type Node struct {
 
 // Cluster is a set of Dirk instances connected only by the simulated transport.
 type Cluster struct {
-	rc      *RunCtx
-	t       *testing.T
-	S       *Sched
-	Nodes   []*Node
-	byName  map[string]*Node
-	Net     *Transport
-	Timeout time.Duration
-	Perms   map[string][]*checker.Permissions
+	rc       *RunCtx
+	t        *testing.T
+	S        *Sched
+	Nodes    []*Node
+	byName   map[string]*Node
+	Net      *Transport
+	Timeout  time.Duration
+	Perms    map[string][]*checker.Permissions
 	AdminIPs []string
 }
 
@@ -84,8 +84,9 @@ type ClusterCfg struct {
 	Perms      map[string][]*checker.Permissions
 	NdAccounts int // accounts per node in nd wallet "Wallet 1" (0 = none)
 	Specs      []WalletSpec
-	NameFmt    string // instance / peer names; default "signer-%02d"
-	AdminIPs   []string // administrator addresses of every instance; default 10.0.0.1
+	NameFmt    string            // instance / peer names; default "signer-%02d"
+	AdminIPs   []string          // administrator addresses of every instance; default 10.0.0.1
+	ExtraPeers map[uint64]string // further entries of every instance's peer table (configured peers that are not running)
 }
 
 // NewCluster builds n instances, each with its own wallet store, badger directory and services.
@@ -109,6 +110,9 @@ func NewCluster(t *testing.T, rc *RunCtx, s *Sched, cfg ClusterCfg) *Cluster {
 	for i, id := range cfg.IDs {
 		name := fmt.Sprintf(cfg.NameFmt, i+1)
 		peerMap[id] = fmt.Sprintf("%s:%d", name, 9000+i)
+	}
+	for id, addr := range cfg.ExtraPeers {
+		peerMap[id] = addr
 	}
 	order := cfg.Order
 	if order == nil {
